@@ -83,7 +83,7 @@ def main() -> None:
     for t in ts:
         t.join()
     # leave the generated files in the state of the unchanged tree
-    for script in ("gen_tables.py", "gen_translate.py", "gen_translate_flows.py", "gen_translate_funcs.py", "gen_translate_enc.py", "gen_translate_dec.py", "gen_translate_stmt.py", "gen_translate_dstmt.py"):
+    for script in ("gen_tables.py", "gen_translate.py", "gen_translate_flows.py", "gen_translate_funcs.py", "gen_translate_enc.py", "gen_translate_dec.py", "gen_translate_stmt.py", "gen_translate_dstmt.py", "gen_translate_stream.py"):
         sh([sys.executable, str(VERIF / "harness" / script)], cwd=VERIF / "harness")
     out = SEEDED / "RESULTS.json"
     merged = json.loads(out.read_text()) if out.exists() else {}
